@@ -629,7 +629,7 @@ class ImportanceNestedSampler(BaseNestedSampler):
         elif self.iid_samples is not None:
             return self.iid_samples.samples
         else:
-            return None
+            return self.training_samples.samples
 
     @property
     def final_samples(self) -> np.ndarray:
@@ -642,7 +642,7 @@ class ImportanceNestedSampler(BaseNestedSampler):
         elif self.iid_samples is not None:
             return self.iid_samples.state
         else:
-            return None
+            return self.training_samples.state
 
     @property
     def reached_tolerance(self) -> bool:
